@@ -20,7 +20,7 @@ end
 def Node.eraseNs : Node → Node
   | .element m a _ d xt xn => .element m a [] d xt xn
   | .primitive pm v _ => .primitive pm v []
-  | .standard v dt _ nl d => .standard v dt [] nl d
+  | .standard v dt _ nl d mx => .standard v dt [] nl d mx
   | .wildcard v a _ => .wildcard v a []
   | .skip => .skip
   | .wrapper q => .wrapper q
@@ -57,7 +57,7 @@ def ctxNoQ (Γ : Ctx) : Bool := Γ.classes.all fun ci => ci.metas.all fun pm => 
 def nodeOk : Node → Bool
   | .element m a n _ _ _ => metaNoQ m && attrsStable a n
   | .primitive _ v _ => varNoQ v
-  | .standard _ dt _ _ _ => dt ≠ .qname
+  | .standard _ dt _ _ _ _ => dt ≠ .qname
   | .wildcard _ a n => attrsStable a n
   | .skip => true
   | .wrapper _ => true
@@ -493,10 +493,10 @@ theorem parseNode_eraseNs (e : BEnv) (Γ : Ctx) (cfg : ParserConfig) (hΓ : ctxN
     have hp := parseVar_ns e cfg var.toVarCore t ns [] none (by simpa using varNoQ_types var hv)
     simp only [parseNode, Node.eraseNs, eraseNs, eraseNsL_isEmpty, hc, hp]
   case std1 =>
-    intro q a n t c tl var dt ns nl d hc _ _
+    intro q a n t c tl var dt ns nl d mx hc _ _
     simp only [parseNode, Node.eraseNs, eraseNs, eraseNsL_isEmpty, hc, if_true]
   case std2 =>
-    intro q a n t c tl var dt ns nl d hc hn _
+    intro q a n t c tl var dt ns nl d mx hc hn _
     have hdt : dt ≠ .qname := by simpa [nodeOk] using hn
     have hp := parseVar_ns e cfg var.toVarCore t ns [] (some [.prim dt]) (by
       cases dt <;> simp_all)
